@@ -210,6 +210,9 @@ def expected_sign(la, lb):
     """sign the text fixes for two lists: equal written-out prefix, then two
     values of one ordered type that differ"""
     for x, y in zip(la, lb):
+        # a NaN (also inside an array) ends what the text fixes: the comparison does
+        # not get past it as "equal", whatever the bits
+        if has_nan([x]) or has_nan([y]): return None
         if x == y: continue
         if x[0] == "a" or y[0] == "a": return None
         c = cmp_simple(x, y)
@@ -706,8 +709,10 @@ def check_laws(case, impl):
     #    NaN too; a failure of reflexivity / antisymmetry / "same values compare 0" /
     #    transitivity that step 1 did not see involves a NaN list - that is the
     #    finding class nan-in-list (classify() re-derives it from the case).
+    #    The order of two lists is judged as well when it is decided before the first
+    #    NaN (expected_sign stops at a NaN).
     allidx = list(range(k))
-    r = laws_on(allidx, k, C, E, vals, lists, kinds=("eq-iff-cmp0",))
+    r = laws_on(allidx, k, C, E, vals, lists, kinds=("eq-iff-cmp0", "order"))
     if r: return r
     return laws_on(allidx, k, C, E, vals, lists, kinds=("reflexive", "antisymmetric", "compression", "transitive"))
 
@@ -757,7 +762,8 @@ def check_comp(case, impl):
             return "message: %s gives %s, %s gives %s" % (show(vtok[0]), first[2][4:], show(t), g[2][4:])
         if exp_msg is not None and g[2][4:] != exp_msg:
             return "message: %s gives %s, its values encode as %s" % (show(t), g[2][4:], exp_msg)
-    if not nan and not has_nan(bvals):
+    if True:
+        # also with a NaN among the values: expected_sign stops at the first NaN
         e = expected_sign(vals, bvals)
         got = {"-": -1, "0": 0, "+": 1}.get(first[0][4])
         if e is not None and got != e:
@@ -812,8 +818,9 @@ def first_difference(va, vb):
 
 def classify(case, impl, failure):
     """nan-in-list: reflexivity, antisymmetry, transitivity or 'two ways of writing the
-    same values compare 0' fails and, for two of the lists the failure names (or one
-    of them against itself), the first difference the comparison meets is a NaN.
+    same values compare 0' fails and, for two DIFFERENT lists among those the failure
+    names (for reflexivity: the one list against itself), the first difference the
+    comparison meets is a NaN.
     That implies 'not all_nonan' of a named list, the negation of the side condition
     of the C16_*_partial theorems; it is narrower, so a NaN list whose comparison is
     decided before the NaN is reached is still judged.  'cmp = 0 exactly when eq' is
@@ -831,10 +838,19 @@ def classify(case, impl, failure):
         vs = [expand([] if n == "-" else n.split(",")) for n in named]
     except (Malformed, ValueError, IndexError):
         return None
-    for i in range(len(vs)):
-        for j in range(i, len(vs)):
-            if first_difference(vs[i], vs[j]) == "nan":
-                return "nan-in-list"
+    if kind == "reflexive":
+        # one list against itself: the walk meets a NaN (nothing else can differ)
+        pairs = [(0, 0)] if len(vs) == 1 else []
+    elif kind in ("antisymmetric", "compression"):
+        # the two lists named, against each other - never a list against itself
+        pairs = [(0, 1)] if len(vs) == 2 else []
+    else:
+        # transitive names a, b, c: cmp(a,b), cmp(b,c), cmp(a,c) are the comparisons
+        # the failure rests on; one of them must be decided at a NaN
+        pairs = [(0, 1), (1, 2), (0, 2)] if len(vs) == 3 else []
+    for i, j in pairs:
+        if first_difference(vs[i], vs[j]) == "nan":
+            return "nan-in-list"
     return None
 
 # cases the oracle says nothing about (hand-written corpus lines outside the layout the
